@@ -55,12 +55,26 @@ func (l *Loader) LoadRaw(name string) (*RawConfig, error) {
 
 // Load loads a target configuration with inheritance resolved
 func (l *Loader) Load(name string) (*Config, error) {
+	return l.load(name, nil)
+}
+
+// load resolves name; path lists the configurations whose inheritance is
+// currently being resolved (from the requested target down to the one that
+// inherits name), so that a cyclic "inherits" is reported as an error instead
+// of recursing until the stack overflows.
+func (l *Loader) load(name string, path []string) (*Config, error) {
+	for _, p := range path {
+		if p == name {
+			return nil, fmt.Errorf("inheritance cycle in target config: %s -> %s", strings.Join(path, " -> "), name)
+		}
+	}
+
 	raw, err := l.LoadRaw(name)
 	if err != nil {
 		return nil, err
 	}
 
-	return l.resolveInheritance(raw)
+	return l.resolveInheritance(raw, append(path[:len(path):len(path)], name))
 }
 
 // LoadAll loads all target configurations in the targets directory
@@ -90,7 +104,7 @@ func (l *Loader) LoadAll() (map[string]*Config, error) {
 }
 
 // resolveInheritance resolves inheritance chain for a configuration
-func (l *Loader) resolveInheritance(raw *RawConfig) (*Config, error) {
+func (l *Loader) resolveInheritance(raw *RawConfig, path []string) (*Config, error) {
 	if !raw.HasInheritance() {
 		// No inheritance, return as-is
 		return &raw.Config, nil
@@ -101,7 +115,7 @@ func (l *Loader) resolveInheritance(raw *RawConfig) (*Config, error) {
 
 	// Apply inheritance in order
 	for _, parentName := range raw.GetInherits() {
-		parent, err := l.Load(parentName)
+		parent, err := l.load(parentName, path)
 		if err != nil {
 			return nil, fmt.Errorf("failed to load parent config %s: %w", parentName, err)
 		}
